@@ -1,2 +1,515 @@
-(* C05 - proofs about the lookup-level model (placeholder, filled below). *)
+(* C05 - proofs about the lookup-level model: _find_blocks, population_array,
+   soundness of the boolean checkers of C05_Check. (encode/recode: C05_ProofsCodec,
+   text level: C05_ProofsText.) *)
 From HV Require Import Prelude Tracts BpText C05_Model C05_Check.
+
+(* ---- generic list / result lemmas ----------------------------------------- *)
+
+Lemma mapM_spec {A B} (f : A -> res B) l :
+  match mapM f l with
+  | Ok bs => Forall2 (fun a b => f a = Ok b) l bs
+  | Err k => exists a, In a l /\ f a = Err k
+  end.
+Proof.
+  induction l as [|a r IH]; cbn [mapM]; [constructor|].
+  destruct (f a) as [b|k] eqn:Ea; cbn [bind].
+  - destruct (mapM f r) as [bs|k]; cbn [bind].
+    + constructor; assumption.
+    + destruct IH as [x [Hx Hfx]]. exists x. split; [right; exact Hx|exact Hfx].
+  - exists a. split; [left; reflexivity|exact Ea].
+Qed.
+
+Lemma mapM_ok_map {A B} (f : A -> res B) (g : A -> B) l :
+  (forall a, In a l -> f a = Ok (g a)) -> mapM f l = Ok (map g l).
+Proof.
+  induction l as [|a r IH]; intros H; cbn [mapM map]; [reflexivity|].
+  rewrite (H a (or_introl eq_refl)). cbn [bind]. rewrite IH; [reflexivity|].
+  intros x Hx. apply H. right. exact Hx.
+Qed.
+
+Lemma mapM_err_kind {A B} (f : A -> res B) l k0 :
+  (forall a k, In a l -> f a = Err k -> k = k0) ->
+  (exists a, In a l /\ exists k, f a = Err k) -> mapM f l = Err k0.
+Proof.
+  induction l as [|a r IH]; intros Hk [x [Hx [k Hfx]]]; [inversion Hx|].
+  cbn [mapM]. destruct (f a) as [b|k'] eqn:Ea; cbn [bind].
+  - destruct Hx as [->|Hx]; [congruence|].
+    rewrite IH; [reflexivity| |].
+    + intros y ky Hy Hfy. apply (Hk y ky); [right; exact Hy|exact Hfy].
+    + exists x. split; [exact Hx|exists k; exact Hfx].
+  - f_equal. apply (Hk a k'); [left; reflexivity|exact Ea].
+Qed.
+
+Lemma forallb2_Forall2 {A B} (f : A -> B -> bool) l1 l2 :
+  forallb2 f l1 l2 = true -> Forall2 (fun a b => f a b = true) l1 l2.
+Proof.
+  revert l2. induction l1 as [|a r IH]; intros [|b s] H; cbn in H; try discriminate; [constructor|].
+  apply andb_true_iff in H. destruct H as [H1 H2]. constructor; [exact H1|apply IH; exact H2].
+Qed.
+
+Lemma Forall2_impl {A B} (P Q : A -> B -> Prop) l1 l2 :
+  (forall a b, P a b -> Q a b) -> Forall2 P l1 l2 -> Forall2 Q l1 l2.
+Proof. intros H F. induction F; constructor; auto. Qed.
+
+Lemma Forall2_combine {A B C} (P : A -> B -> Prop) (Q : A -> C -> Prop) l r1 r2 :
+  Forall2 P l r1 -> Forall2 Q l r2 ->
+  Forall2 (fun a c => P a (fst c) /\ Q a (snd c)) l (combine r1 r2).
+Proof.
+  intros H1. revert r2. induction H1 as [|a b l r1 Hab H1 IH]; intros r2 H2; inversion H2; subst; cbn [combine].
+  - constructor.
+  - constructor; [split; assumption|apply IH; assumption].
+Qed.
+
+Lemma nodupb_NoDup l : nodupb l = true -> NoDup l.
+Proof.
+  induction l as [|x r IH]; cbn [nodupb]; intros H; [constructor|].
+  apply andb_true_iff in H. destruct H as [H1 H2]. constructor; [|apply IH; exact H2].
+  intros Hin. apply negb_true_iff in H1.
+  assert (existsb (Z.eqb x) r = true) as E.
+  { apply existsb_exists. exists x. split; [exact Hin|apply Z.eqb_refl]. }
+  congruence.
+Qed.
+
+Lemma filter_id {A} (f : A -> bool) l : (forall x, In x l -> f x = true) -> filter f l = l.
+Proof.
+  induction l as [|a r IH]; intros H; cbn [filter]; [reflexivity|].
+  rewrite (H a (or_introl eq_refl)). f_equal. apply IH. intros x Hx. apply H. right. exact Hx.
+Qed.
+
+Lemma dedup_In x l : In x (dedup l) <-> In x l.
+Proof.
+  induction l as [|a r IH]; cbn [dedup]; [tauto|]. split.
+  - intros [->|H]; [left; reflexivity|]. apply filter_In in H. right. apply IH. tauto.
+  - intros [->|H]; [left; reflexivity|].
+    destruct (Z.eq_dec x a) as [->|Hne]; [left; reflexivity|right].
+    apply filter_In. split; [apply IH; exact H|]. apply negb_true_iff. apply Z.eqb_neq. exact Hne.
+Qed.
+
+Lemma dedup_NoDup l : NoDup l -> dedup l = l.
+Proof.
+  induction l as [|a r IH]; intros H; cbn [dedup]; [reflexivity|].
+  inversion H as [|? ? Hnot Hr]; subst. rewrite (IH Hr). f_equal.
+  apply filter_id. intros x Hx. apply negb_true_iff. apply Z.eqb_neq. intros ->. contradiction.
+Qed.
+
+(* ---- _find_blocks ---------------------------------------------------------- *)
+
+Lemma first_ge_le es p : (first_ge es p <= length es)%nat.
+Proof. induction es as [|e r IH]; cbn; [lia|]. destruct (p <=? e); cbn; lia. Qed.
+
+Lemma first_ge_before es p j e :
+  (j < first_ge es p)%nat -> nth_error es j = Some e -> e < p.
+Proof.
+  revert j. induction es as [|x r IH]; intros j Hj Hn; cbn in Hj; [lia|].
+  destruct (p <=? x) eqn:E; [lia|]. apply Z.leb_gt in E.
+  destruct j as [|j]; cbn in Hn; [inversion Hn; subst; exact E|].
+  apply (IH j); [lia|exact Hn].
+Qed.
+
+Lemma first_ge_at es p e : nth_error es (first_ge es p) = Some e -> p <= e.
+Proof.
+  induction es as [|x r IH]; cbn; [discriminate|].
+  destruct (p <=? x) eqn:E; cbn; [intros H; inversion H; subst; apply Z.leb_le; exact E|exact IH].
+Qed.
+
+Lemma first_ge_none es p : first_ge es p = length es <-> (forall e, In e es -> e < p).
+Proof.
+  induction es as [|x r IH]; cbn; [split; [intros _ e []|reflexivity]|].
+  destruct (p <=? x) eqn:E.
+  - split; [discriminate|]. intros H. apply Z.leb_le in E. specialize (H x (or_introl eq_refl)). lia.
+  - apply Z.leb_gt in E. split.
+    + intros H e [<-|He]; [exact E|]. apply IH; [lia|exact He].
+    + intros H. f_equal. apply IH. intros e He. apply H. right. exact He.
+Qed.
+
+Theorem find_blocks_spec ends ps :
+  match find_blocks ends ps with
+  | Ok idx =>
+      Forall2 (fun p i => exists e, nth_error ends i = Some e /\ p <= e /\
+                          forall j e', (j < i)%nat -> nth_error ends j = Some e' -> e' < p) ps idx
+  | Err k => k = E_Value /\ exists p, In p ps /\ forall e, In e ends -> e < p
+  end.
+Proof.
+  unfold find_blocks. destruct (existsb _ _) eqn:E.
+  - split; [reflexivity|]. apply existsb_exists in E. destruct E as [i [Hi Hle]].
+    apply in_map_iff in Hi. destruct Hi as [p [<- Hp]]. exists p. split; [exact Hp|].
+    apply first_ge_none. apply Nat.leb_le in Hle. pose proof (first_ge_le ends p). lia.
+  - assert (H : forall p, In p ps -> (first_ge ends p < length ends)%nat).
+    { intros p Hp. destruct (Nat.leb (length ends) (first_ge ends p)) eqn:E2; [|apply Nat.leb_gt; exact E2].
+      exfalso. assert (existsb (fun i => Nat.leb (length ends) i) (map (first_ge ends) ps) = true); [|congruence].
+      apply existsb_exists. exists (first_ge ends p). split; [apply in_map; exact Hp|exact E2]. }
+    clear E. induction ps as [|p r IH]; cbn [map]; constructor.
+    + specialize (H p (or_introl eq_refl)).
+      destruct (nth_error ends (first_ge ends p)) as [e|] eqn:En.
+      * exists e. split; [reflexivity|]. split; [apply (first_ge_at ends); exact En|].
+        intros j e' Hj Hn. apply (first_ge_before ends p j); assumption.
+      * apply nth_error_None in En. lia.
+    + apply IH. intros q Hq. apply H. right. exact Hq.
+Qed.
+
+(* on an ascending array "no end reaches p" is "p is beyond the last end" *)
+Lemma ascending_last_max es l : ascending es = true -> last_opt es = Some l -> forall e, In e es -> e <= l.
+Proof.
+  revert l. induction es as [|a r IH]; intros l Ha Hl e He; [inversion He|].
+  cbn [ascending] in Ha. apply andb_true_iff in Ha. destruct Ha as [Ha1 Ha2].
+  destruct r as [|b r'].
+  - cbn in Hl. inversion Hl; subst. destruct He as [<-|[]]. lia.
+  - assert (Hl' : last_opt (b :: r') = Some l).
+    { unfold last_opt in *. cbn [rev] in *. destruct (rev r' ++ [b]) eqn:Er.
+      - destruct (rev r'); discriminate.
+      - cbn in Hl. exact Hl. }
+    apply Z.leb_le in Ha1. destruct He as [<-|He].
+    + specialize (IH l Ha2 Hl' b (or_introl eq_refl)). lia.
+    + apply (IH l Ha2 Hl' e He).
+Qed.
+
+Lemma last_opt_In {A} (l : list A) x : last_opt l = Some x -> In x l.
+Proof.
+  unfold last_opt. destruct (rev l) eqn:E; [discriminate|]. intros H; inversion H; subst.
+  apply in_rev. rewrite E. left. reflexivity.
+Qed.
+
+Theorem find_blocks_error_iff_beyond_last ends ps l :
+  ascending ends = true -> last_opt ends = Some l ->
+  ((exists k, find_blocks ends ps = Err k) <-> exists p, In p ps /\ l < p).
+Proof.
+  intros Ha Hl. pose proof (find_blocks_spec ends ps) as S. split.
+  - intros [k Hk]. rewrite Hk in S. destruct S as [_ [p [Hp Hall]]]. exists p. split; [exact Hp|].
+    apply Hall. apply last_opt_In. exact Hl.
+  - intros [p [Hp Hlt]]. destruct (find_blocks ends ps) as [idx|k]; [|exists k; reflexivity]. exfalso.
+    assert (exists i, exists e, nth_error ends i = Some e /\ p <= e) as [i [e [Hn Hpe]]].
+    { clear -S Hp. induction S as [|q i ps idx Hq S IH]; [inversion Hp|].
+      destruct Hp as [->|Hp]; [|apply IH; exact Hp].
+      destruct Hq as [e [Hn [Hpe _]]]. exists i, e. split; assumption. }
+    apply nth_error_In in Hn. pose proof (ascending_last_max ends l Ha Hl e Hn). lia.
+Qed.
+
+(* ---- population_array ------------------------------------------------------ *)
+
+Definition cell (blocks : list seg) (v : variant) : res Z :=
+  match label_at blocks (vchrom v) (vpos v) with Some l => Ok l | None => Err E_Value end.
+
+Definition lab (blocks : list seg) (v : variant) : Z :=
+  match label_at blocks (vchrom v) (vpos v) with Some l => l | None => 0 end.
+
+Lemma label_at_on_chrom blocks c p :
+  label_at blocks c p =
+  nth_error (map pop (on_chrom c blocks)) (first_ge (map endc (on_chrom c blocks)) p).
+Proof.
+  induction blocks as [|s r IH]; [reflexivity|].
+  unfold on_chrom in *. cbn [label_at filter]. destruct (chrom s =? c) eqn:Ec; cbn [andb map first_ge].
+  - destruct (p <=? endc s); cbn; [reflexivity|exact IH].
+  - exact IH.
+Qed.
+
+Definition merge {A} (f : variant -> bool) (g : variant -> A) (vs : list variant) (row : list (option A)) :=
+  map (fun vo : variant * option A => if f (fst vo) then Some (g (fst vo)) else snd vo) (combine vs row).
+
+Lemma scatter_merge {A} (f : variant -> bool) (g : variant -> A) vs row :
+  length row = length vs ->
+  scatter (map f vs) (map g (filter f vs)) row = merge f g vs row.
+Proof.
+  revert row. induction vs as [|v vs IH]; intros [|x r] H; cbn in H; try discriminate; [reflexivity|].
+  unfold merge in *. cbn [map filter combine fst snd]. destruct (f v) eqn:Ef; cbn [map scatter].
+  - f_equal. apply IH. lia.
+  - f_equal. apply IH. lia.
+Qed.
+
+Lemma merge_ext {A} (f : variant -> bool) (g g' : variant -> A) vs row :
+  (forall v, In v vs -> f v = true -> g v = g' v) -> merge f g vs row = merge f g' vs row.
+Proof.
+  revert row. induction vs as [|v vs IH]; intros row H; [reflexivity|].
+  destruct row as [|x r]; [reflexivity|]. unfold merge in *. cbn [combine map fst snd].
+  destruct (f v) eqn:Ef.
+  - rewrite (H v (or_introl eq_refl) Ef). f_equal. apply IH. intros w Hw. apply H. right. exact Hw.
+  - f_equal. apply IH. intros w Hw. apply H. right. exact Hw.
+Qed.
+
+Lemma merge_length {A} (f : variant -> bool) (g : variant -> A) vs row :
+  length row = length vs -> length (merge f g vs row) = length vs.
+Proof. intros H. unfold merge. rewrite map_length, combine_length. lia. Qed.
+
+Lemma find_blocks_ok_inv ends ps idx :
+  find_blocks ends ps = Ok idx ->
+  idx = map (first_ge ends) ps /\ forall p, In p ps -> (first_ge ends p < length ends)%nat.
+Proof.
+  unfold find_blocks. destruct (existsb _ _) eqn:E; [discriminate|]. intros H; inversion H; subst.
+  split; [reflexivity|]. intros p Hp.
+  destruct (Nat.leb (length ends) (first_ge ends p)) eqn:E2; [|apply Nat.leb_gt; exact E2].
+  exfalso. assert (existsb (fun i => Nat.leb (length ends) i) (map (first_ge ends) ps) = true); [|congruence].
+  apply existsb_exists. exists (first_ge ends p). split; [apply in_map; exact Hp|exact E2].
+Qed.
+
+Lemma find_blocks_err_inv ends ps k :
+  find_blocks ends ps = Err k ->
+  k = E_Value /\ exists p, In p ps /\ (length ends <= first_ge ends p)%nat.
+Proof.
+  unfold find_blocks. destruct (existsb _ _) eqn:E; [|discriminate]. intros H; inversion H; subst.
+  split; [reflexivity|]. apply existsb_exists in E. destruct E as [i [Hi Hle]].
+  apply in_map_iff in Hi. destruct Hi as [p [<- Hp]]. exists p. split; [exact Hp|apply Nat.leb_le; exact Hle].
+Qed.
+
+Lemma fill_chrom_ok blocks vs c row row' :
+  length row = length vs ->
+  fill_chrom blocks vs c row = Ok row' ->
+  row' = merge (fun v => vchrom v =? c) (lab blocks) vs row /\
+  (forall v, In v vs -> vchrom v = c -> label_at blocks c (vpos v) <> None).
+Proof.
+  intros Hlen. unfold fill_chrom. destruct (on_chrom c blocks) as [|s0 cb0] eqn:Ecb; [discriminate|].
+  rewrite <- Ecb. set (cb := on_chrom c blocks).
+  destruct (find_blocks _ _) as [idx|k] eqn:Efb; cbn [bind]; [|discriminate].
+  intros H. inversion H; subst row'. clear H.
+  apply find_blocks_ok_inv in Efb. destruct Efb as [Hidx Hlt].
+  assert (Hcov : forall v, In v vs -> vchrom v = c -> label_at blocks c (vpos v) <> None).
+  { intros v Hv Hc. rewrite label_at_on_chrom. fold cb.
+    assert (Hin : In (vpos v) (map vpos (filter (fun v => vchrom v =? c) vs))).
+    { apply in_map. apply filter_In. split; [exact Hv|apply Z.eqb_eq; exact Hc]. }
+    specialize (Hlt _ Hin). rewrite map_length in Hlt.
+    intros Hn. apply nth_error_None in Hn. rewrite map_length in Hn. lia. }
+  split; [|exact Hcov].
+  rewrite Hidx, !map_map. rewrite scatter_merge by exact Hlen.
+  apply merge_ext. intros v Hv Hf. apply Z.eqb_eq in Hf.
+  unfold lab. rewrite Hf. specialize (Hcov v Hv Hf). rewrite label_at_on_chrom in *. fold cb in Hcov |- *.
+  destruct (nth_error (map pop cb) (first_ge (map endc cb) (vpos v))) as [l|] eqn:En; [|congruence].
+  apply nth_error_nth. exact En.
+Qed.
+
+Lemma fill_chrom_err blocks vs c row k :
+  (exists v, In v vs /\ vchrom v = c) ->
+  fill_chrom blocks vs c row = Err k ->
+  k = E_Value /\ exists v, In v vs /\ vchrom v = c /\ label_at blocks c (vpos v) = None.
+Proof.
+  intros [v0 [Hv0 Hc0]]. unfold fill_chrom. destruct (on_chrom c blocks) as [|s0 cb0] eqn:Ecb.
+  - intros H; injection H as <-. split; [reflexivity|]. exists v0. split; [exact Hv0|]. split; [exact Hc0|].
+    rewrite label_at_on_chrom, Ecb. reflexivity.
+  - rewrite <- Ecb. set (cb := on_chrom c blocks).
+    destruct (find_blocks _ _) as [idx|k'] eqn:Efb; cbn [bind]; [discriminate|].
+    intros H; injection H as ->. apply find_blocks_err_inv in Efb. destruct Efb as [-> [p [Hp Hle]]].
+    split; [reflexivity|]. apply in_map_iff in Hp. destruct Hp as [v [<- Hv]]. apply filter_In in Hv.
+    destruct Hv as [Hv Hc]. apply Z.eqb_eq in Hc. exists v. split; [exact Hv|]. split; [exact Hc|].
+    rewrite label_at_on_chrom. fold cb. apply nth_error_None. rewrite map_length in *. exact Hle.
+Qed.
+
+Lemma fold_chroms_ok blocks vs cs : forall row,
+  length row = length vs ->
+  (forall c, In c cs -> forall v, In v vs -> vchrom v = c -> label_at blocks c (vpos v) <> None) ->
+  (forall c, In c cs -> exists v, In v vs /\ vchrom v = c) ->
+  fold_chroms blocks vs cs row =
+  Ok (merge (fun v => existsb (Z.eqb (vchrom v)) cs) (lab blocks) vs row).
+Proof.
+  induction cs as [|c r IH]; intros row Hlen Hcov Hne; cbn [fold_chroms].
+  - f_equal. unfold merge. cbn [existsb]. clear -Hlen. revert row Hlen.
+    induction vs as [|v vs IH]; intros [|x row] H; cbn in H; try discriminate; [reflexivity|].
+    cbn [combine map fst snd]. f_equal. apply IH. lia.
+  - destruct (fill_chrom blocks vs c row) as [row1|k] eqn:Ef; cbn [bind].
+    + apply fill_chrom_ok in Ef; [|exact Hlen]. destruct Ef as [-> _].
+      rewrite IH.
+      * f_equal. unfold merge. clear -Hlen. revert row Hlen.
+        induction vs as [|v vs IHv]; intros [|x row] H; cbn in H; try discriminate; [reflexivity|].
+        cbn [combine map fst snd existsb]. rewrite (Z.eqb_sym (vchrom v) c).
+        destruct (existsb (Z.eqb (vchrom v)) r); destruct (c =? vchrom v); cbn [orb]; f_equal; apply IHv; lia.
+      * apply merge_length. exact Hlen.
+      * intros c' Hc'. apply Hcov. right. exact Hc'.
+      * intros c' Hc'. apply Hne. right. exact Hc'.
+    + exfalso. apply fill_chrom_err in Ef; [|apply Hne; left; reflexivity].
+      destruct Ef as [_ [v [Hv [Hc Hn]]]]. apply (Hcov c (or_introl eq_refl) v Hv Hc Hn).
+Qed.
+
+Lemma fold_chroms_err blocks vs cs : forall row,
+  length row = length vs ->
+  (forall c, In c cs -> exists v, In v vs /\ vchrom v = c) ->
+  (exists c v, In c cs /\ In v vs /\ vchrom v = c /\ label_at blocks c (vpos v) = None) ->
+  fold_chroms blocks vs cs row = Err E_Value.
+Proof.
+  induction cs as [|c r IH]; intros row Hlen Hne [c0 [v [Hc0 [Hv [Hvc Hn]]]]]; [inversion Hc0|].
+  cbn [fold_chroms]. destruct (fill_chrom blocks vs c row) as [row1|k] eqn:Ef; cbn [bind].
+  - pose proof Ef as Ef'. apply fill_chrom_ok in Ef'; [|exact Hlen]. destruct Ef' as [-> Hcov].
+    destruct Hc0 as [<-|Hc0]; [exfalso; apply (Hcov v Hv Hvc Hn)|].
+    apply IH.
+    + apply merge_length. exact Hlen.
+    + intros c' Hc'. apply Hne. right. exact Hc'.
+    + exists c0, v. repeat split; assumption.
+  - apply fill_chrom_err in Ef; [|apply Hne; left; reflexivity]. destruct Ef as [-> _]. reflexivity.
+Qed.
+
+Lemma merge_all blocks vs :
+  map cell_get (merge (fun v => existsb (Z.eqb (vchrom v)) (dedup (map vchrom vs))) (lab blocks) vs
+                      (repeat None (length vs))) = map (lab blocks) vs.
+Proof.
+  assert (H : forall ws, (forall v, In v ws -> existsb (Z.eqb (vchrom v)) (dedup (map vchrom vs)) = true) ->
+    map cell_get (merge (fun v => existsb (Z.eqb (vchrom v)) (dedup (map vchrom vs))) (lab blocks) ws
+                        (repeat None (length ws))) = map (lab blocks) ws).
+  { induction ws as [|w ws IH]; intros Hw; [reflexivity|].
+    unfold merge in *. cbn [length repeat combine map fst snd].
+    rewrite (Hw w (or_introl eq_refl)). cbn [cell_get]. f_equal. apply IH.
+    intros v Hv. apply Hw. right. exact Hv. }
+  apply H. intros v Hv. apply existsb_exists. exists (vchrom v). split; [|apply Z.eqb_refl].
+  apply (proj2 (dedup_In _ _)). apply in_map. exact Hv.
+Qed.
+
+Lemma cell_ok_inv blocks v l : cell blocks v = Ok l -> label_at blocks (vchrom v) (vpos v) = Some l.
+Proof. unfold cell. destruct (label_at _ _ _); intros H; inversion H; reflexivity. Qed.
+
+Lemma cell_err_inv blocks v k : cell blocks v = Err k -> k = E_Value /\ label_at blocks (vchrom v) (vpos v) = None.
+Proof. unfold cell. destruct (label_at _ _ _); intros H; inversion H; split; reflexivity. Qed.
+
+(* the chromosome-wise scatter computes, cell by cell, the label of the first block
+   on the variant's chromosome whose end is >= the variant's position *)
+Lemma strand_row_cellwise blocks vs : strand_row blocks vs = mapM (cell blocks) vs.
+Proof.
+  unfold strand_row.
+  assert (Hne : forall c, In c (dedup (map vchrom vs)) -> exists v, In v vs /\ vchrom v = c).
+  { intros c Hc. apply (proj1 (dedup_In _ _)) in Hc. apply in_map_iff in Hc. destruct Hc as [v [Hvc Hv]]. exists v. tauto. }
+  destruct (existsb (fun v => match label_at blocks (vchrom v) (vpos v) with Some _ => false | None => true end) vs) eqn:E.
+  - apply existsb_exists in E. destruct E as [v [Hv Hn]].
+    destruct (label_at blocks (vchrom v) (vpos v)) eqn:El; [discriminate|].
+    rewrite fold_chroms_err; [| apply repeat_length | exact Hne |].
+    + cbn [bind]. symmetry. apply mapM_err_kind.
+      * intros a k _ Hk. apply cell_err_inv in Hk. tauto.
+      * exists v. split; [exact Hv|]. exists E_Value. unfold cell. rewrite El. reflexivity.
+    + exists (vchrom v), v. split; [apply (proj2 (dedup_In _ _)); apply in_map; exact Hv|]. repeat split; [exact Hv|exact El].
+  - assert (Hcov : forall v, In v vs -> label_at blocks (vchrom v) (vpos v) <> None).
+    { intros v Hv Hn. assert (existsb (fun v => match label_at blocks (vchrom v) (vpos v) with Some _ => false | None => true end) vs = true); [|congruence].
+      apply existsb_exists. exists v. split; [exact Hv|]. rewrite Hn. reflexivity. }
+    rewrite fold_chroms_ok; [| apply repeat_length | | exact Hne].
+    + cbn [bind]. rewrite merge_all. symmetry. apply mapM_ok_map.
+      intros v Hv. unfold cell, lab. specialize (Hcov v Hv). destruct (label_at _ _ _); [reflexivity|congruence].
+    + intros c _ v Hv Hc. subst c. apply Hcov. exact Hv.
+Qed.
+
+(* the declarative content of one sample's rows *)
+Definition cells_ok (sb : strands) (vs : list variant) (row : list (Z * Z)) : Prop :=
+  Forall2 (fun v c => label_at (fst sb) (vchrom v) (vpos v) = Some (fst c) /\
+                      label_at (snd sb) (vchrom v) (vpos v) = Some (snd c)) vs row.
+
+Definition uncovered_cell (sb : strands) (vs : list variant) : Prop :=
+  exists v, In v vs /\ (label_at (fst sb) (vchrom v) (vpos v) = None \/
+                        label_at (snd sb) (vchrom v) (vpos v) = None).
+
+Lemma sample_rows_spec vs (nsb : Z * strands) :
+  match sample_rows vs nsb with
+  | Ok row => cells_ok (snd nsb) vs row
+  | Err k => k = E_Value /\ uncovered_cell (snd nsb) vs
+  end.
+Proof.
+  unfold sample_rows. rewrite !strand_row_cellwise.
+  pose proof (mapM_spec (cell (fst (snd nsb))) vs) as S1.
+  pose proof (mapM_spec (cell (snd (snd nsb))) vs) as S2.
+  destruct (mapM (cell (fst (snd nsb))) vs) as [r1|k1]; cbn [bind].
+  - destruct (mapM (cell (snd (snd nsb))) vs) as [r2|k2]; cbn [bind].
+    + unfold cells_ok.
+      apply (Forall2_combine (fun v l => label_at (fst (snd nsb)) (vchrom v) (vpos v) = Some l)
+                             (fun v l => label_at (snd (snd nsb)) (vchrom v) (vpos v) = Some l)).
+      * eapply Forall2_impl; [|exact S1]. intros a b. apply cell_ok_inv.
+      * eapply Forall2_impl; [|exact S2]. intros a b. apply cell_ok_inv.
+    + destruct S2 as [v [Hv Hk]]. apply cell_err_inv in Hk. destruct Hk as [-> Hn].
+      split; [reflexivity|]. exists v. split; [exact Hv|right; exact Hn].
+  - destruct S1 as [v [Hv Hk]]. apply cell_err_inv in Hk. destruct Hk as [-> Hn].
+    split; [reflexivity|]. exists v. split; [exact Hv|left; exact Hn].
+Qed.
+
+(* population_array over the whole table (samples=None): row k is sample k of the table *)
+Theorem population_array_all_spec d vs :
+  match population_array d vs None with
+  | Ok arr => Forall2 (fun nsb row => cells_ok (snd nsb) vs row) d arr
+  | Err k => k = E_Value /\ exists nsb, In nsb d /\ uncovered_cell (snd nsb) vs
+  end.
+Proof.
+  unfold population_array, select. cbn [bind].
+  pose proof (mapM_spec (sample_rows vs) d) as S. destruct (mapM (sample_rows vs) d) as [arr|k].
+  - eapply Forall2_impl; [|exact S]. intros nsb row H.
+    pose proof (sample_rows_spec vs nsb) as R. rewrite H in R. exact R.
+  - destruct S as [nsb [Hin H]]. pose proof (sample_rows_spec vs nsb) as R. rewrite H in R.
+    destruct R as [-> R]. split; [reflexivity|]. exists nsb. split; assumption.
+Qed.
+
+(* population_array for requested samples: row k belongs to the k-th requested sample;
+   an uncovered position / absent chromosome / unknown sample is an error, never an answer *)
+Theorem population_array_spec d vs req :
+  NoDup req ->
+  match population_array d vs (Some req) with
+  | Ok arr =>
+      Forall2 (fun s row => exists sb, zassoc s d = Some sb /\ cells_ok sb vs row) req arr
+  | Err k =>
+      (k = E_Key /\ exists s, In s req /\ zassoc s d = None) \/
+      (k = E_Value /\ exists s sb, In s req /\ zassoc s d = Some sb /\ uncovered_cell sb vs)
+  end.
+Proof.
+  intros Hnd. unfold population_array, select. rewrite (dedup_NoDup req Hnd).
+  set (f := fun s => match zassoc s d with Some b => Ok (s, b) | None => Err E_Key end).
+  pose proof (mapM_spec f req) as S1. destruct (mapM f req) as [tbl|k]; cbn [bind].
+  - pose proof (mapM_spec (sample_rows vs) tbl) as S2. destruct (mapM (sample_rows vs) tbl) as [arr|k].
+    + clear -S1 S2. revert arr S2. induction S1 as [|s nsb req tbl Hs S1 IH]; intros arr S2; inversion S2; subst.
+      * constructor.
+      * constructor; [|apply IH; assumption].
+        unfold f in Hs. destruct (zassoc s d) as [sb|] eqn:Ea; inversion Hs; subst.
+        exists sb. split; [reflexivity|].
+        match goal with H : sample_rows vs _ = Ok _ |- _ =>
+          pose proof (sample_rows_spec vs (s, sb)) as R; rewrite H in R; exact R end.
+    + right. destruct S2 as [nsb [Hin H]]. pose proof (sample_rows_spec vs nsb) as R. rewrite H in R.
+      destruct R as [-> R]. split; [reflexivity|].
+      clear -S1 Hin R. induction S1 as [|s nsb' req tbl Hs S1 IH]; [inversion Hin|].
+      destruct Hin as [->|Hin].
+      * unfold f in Hs. destruct (zassoc s d) as [sb|] eqn:Ea; inversion Hs; subst.
+        exists s, sb. split; [left; reflexivity|]. split; [exact Ea|exact R].
+      * destruct (IH Hin) as [s' [sb' [H1 H2]]]. exists s', sb'. split; [right; exact H1|exact H2].
+  - left. destruct S1 as [s [Hin H]]. unfold f in H. destruct (zassoc s d) eqn:Ea; inversion H; subst.
+    split; [reflexivity|]. exists s. split; assumption.
+Qed.
+
+(* ---- soundness of the boolean checkers ------------------------------------- *)
+
+Lemma optZ_eqb_true a b : optZ_eqb a b = true -> a = b.
+Proof. apply (opt_eqb_spec Z.eqb Zeqb_iff). Qed.
+
+Lemma cell_ok_sound sb vs row :
+  forallb2 (cell_ok sb) vs row = true -> cells_ok sb vs row.
+Proof.
+  intros H. apply forallb2_Forall2 in H. eapply Forall2_impl; [|exact H].
+  intros v c Hc. unfold cell_ok in Hc. apply andb_true_iff in Hc. destruct Hc as [H1 H2].
+  split; apply optZ_eqb_true; assumption.
+Qed.
+
+(* evaluating holds_lookup on the implementation's answer means what the property says *)
+Theorem holds_lookup_sound d vs req obs :
+  holds_lookup_gen d vs (Some req) obs = true -> nodupb req = true -> nodupb (map fst d) = true ->
+  match obs with
+  | Ok arr => Forall2 (fun s row => exists sb, zassoc s d = Some sb /\ cells_ok sb vs row) req arr
+  | Err _ => exists s, In s req /\ (zassoc s d = None \/ exists sb, zassoc s d = Some sb /\ uncovered_cell sb vs)
+  end.
+Proof.
+  unfold holds_lookup_gen. intros H N1 N2. rewrite N1, N2 in H. cbn [andb] in H. destruct obs as [arr|k].
+  - apply forallb2_Forall2 in H. eapply Forall2_impl; [|exact H].
+    intros s row Hr. unfold row_ok in Hr. destruct (zassoc s d) as [sb|]; [|discriminate].
+    exists sb. split; [reflexivity|apply cell_ok_sound; exact Hr].
+  - unfold has_reason in H. apply existsb_exists in H. destruct H as [s [Hs Hr]]. exists s. split; [exact Hs|].
+    destruct (zassoc s d) as [sb|]; [right|left; reflexivity]. exists sb. split; [reflexivity|].
+    apply existsb_exists in Hr. destruct Hr as [v [Hv Hu]]. exists v. split; [exact Hv|].
+    unfold cell_uncovered in Hu.
+    destruct (label_at (fst sb) (vchrom v) (vpos v)); [|left; reflexivity].
+    destruct (label_at (snd sb) (vchrom v) (vpos v)); [discriminate|right; reflexivity].
+Qed.
+
+Lemma find_ok_sound ends p i :
+  find_ok ends p i = true ->
+  exists e, nthZ ends i = Some e /\ p <= e /\ forall e', In e' (firstn (Z.to_nat i) ends) -> e' < p.
+Proof.
+  unfold find_ok. destruct (nthZ ends i) as [e|]; [|discriminate]. intros H.
+  apply andb_true_iff in H. destruct H as [H1 H2]. exists e. split; [reflexivity|].
+  split; [apply Z.leb_le; exact H1|]. intros e' He'. rewrite forallb_forall in H2.
+  apply Z.ltb_lt. apply H2. exact He'.
+Qed.
+
+Theorem holds_find_sound ends ps obs :
+  holds_find (mkf ends ps obs) = true -> ascending ends = true ->
+  match obs with
+  | Ok idx => Forall2 (fun p i => exists e, nthZ ends i = Some e /\ p <= e /\
+                         forall e', In e' (firstn (Z.to_nat i) ends) -> e' < p) ps idx
+  | Err _ => exists p, In p ps /\ forall e, In e ends -> e < p
+  end.
+Proof.
+  unfold holds_find. cbn [f_ends f_obs f_pos]. intros H Ha. rewrite Ha in H. destruct obs as [idx|k].
+  - apply forallb2_Forall2 in H. eapply Forall2_impl; [|exact H]. intros p i. apply find_ok_sound.
+  - apply existsb_exists in H. destruct H as [p [Hp Hu]]. exists p. split; [exact Hp|].
+    unfold uncovered in Hu. rewrite forallb_forall in Hu. intros e He. apply Z.ltb_lt. apply Hu. exact He.
+Qed.
